@@ -20,7 +20,7 @@ Classes(f) ==
     [] f = "cid" -> {"absent", "ok", "colon"}
     [] f = "sec" -> {"absent", "literal", "ref", "refNoName"}
     [] f = "hdr" -> {"absent", "ok", "headerOnly", "preambleOnly"}
-    [] f = "sc"  -> {"absent", "empty", "profile", "openidX"}
+    [] f = "sc"  -> {"absent", "empty", "profile", "openidX", "containsWord"}
 
 Valid  == [ep |-> "explicit", cb |-> "ok", lo |-> "ok", cid |-> "ok", sec |-> "literal", hdr |-> "ok", sc |-> "absent"]
 Absent == [f \in Fields |-> "absent"]
@@ -53,7 +53,9 @@ HdrJ(c, T) == CASE c = "ok" -> [id_token |-> [header |-> "x-id-" \o T, preamble 
                 [] c = "headerOnly" -> [id_token |-> [header |-> "x-id-" \o T]]
                 [] c = "preambleOnly" -> [id_token |-> [preamble |-> "Pre" \o T]]
                 [] OTHER -> Nil
-ScJ(c, T) == CASE c = "empty" -> [scopes |-> <<>>] [] c = "profile" -> [scopes |-> <<"profile-" \o T>>] [] c = "openidX" -> [scopes |-> <<"openid", "x-" \o T>>] [] OTHER -> Nil
+ScJ(c, T) == CASE c = "empty" -> [scopes |-> <<>>] [] c = "profile" -> [scopes |-> <<"profile-" \o T>>] [] c = "openidX" -> [scopes |-> <<"openid", "x-" \o T>>]
+               [] c = "containsWord" -> [scopes |-> <<"myopenid-" \o T, "https://api.example.com/openid.read">>]   \* the word, but not the scope
+               [] OTHER -> Nil
 
 \* verifMark keeps the rendering a JSON object even when every field is absent; the driver strips it before loading
 OidcJ(fc, T) == Merge([verifMark |-> TRUE], Merge(Merge(Merge(Merge(Merge(Merge(EpJ(fc.ep, T), CbJ(fc.cb, T)), LoJ(fc.lo, T)), CidJ(fc.cid, T)), SecJ(fc.sec, T)), HdrJ(fc.hdr, T)), ScJ(fc.sc, T)))
